@@ -51,6 +51,30 @@ CHECKS = {
         "One known finding is attributed by differential substitution (see known_findings.json).",
         "3/C13",
     ),
+    "C07": (
+        "exploration",
+        "pose-lattice+frames",
+        "bounded-exhaustive enumeration of a pose lattice (parent orientation x yaw/pitch/roll x dimensions x argument kinds) for every "
+        "specifier/operator, judged by an independent 3x3-matrix oracle",
+        "Every directional specifier, the facing family, beyond / offset by / offset along / relative to / following / on, the 18 side "
+        "operators, distance / angle / altitude / relative heading / apparent heading and the Orientation algebra laws, over 637 (quick) / "
+        "7644 (thorough) poses x ~130 cases each, through the veneer API and through compiled Scenic source text, against models/frames.py.",
+        "Trusted: models/frames.py (own rotation algebra written from the reference: heading 0 = +Y, CCW positive, intrinsic ZXY). Points on "
+        "which the reference is silent or self-contradictory are counted as unspecified, not judged.",
+        "3/C07",
+    ),
+    "C19": (
+        "model_checking",
+        "explorer+RngSeam+stepmachine",
+        "exhaustive enumeration of every RNG outcome during the simulation (exact weights) for every program/precondition table, exact "
+        "distribution compared with the reference machine's",
+        "All sets of 2-3 sub-behaviours with weights from {0.5,1,2,3} (dict/list forms), choose and shuffle, once / twice / in a loop, and "
+        "run-time Uniform/Discrete/DiscreteRange draws, x constant and switching precondition tables x the complete RNG choice tree: the "
+        "exact distribution over (event trace, outcome) equals the reference machine's (pick proportional to weight among enabled, "
+        "not-yet-run items; deadlock rejects).",
+        "Trusted: explorer/RngSeam (self-tested), models/stepmachine.py pick rule from statements.rst. Behaviors only (compose blocks not yet).",
+        "3/C19",
+    ),
 }
 
 NOT_YET = {}
